@@ -66,7 +66,7 @@ func (s step) text() string {
 		return "b:" + strings.Replace(hx.PktText(s.pkt), ":-", "", -1)
 	case "bauto":
 		return fmt.Sprintf("bauto%d", s.n)
-	case "waitret", "waitfut", "trywaitfut":
+	case "waitret", "waitfut", "trywaitfut", "trywaitret":
 		return fmt.Sprintf("%s%d", s.op, s.c)
 	case "release", "waitgate":
 		return s.op + ":" + s.name
@@ -503,6 +503,17 @@ func runScenario(sc *scenario) (lines []string, direct []string, quiescent bool)
 				case <-time.After(time.Duration(s.n) * time.Millisecond):
 				}
 			}
+		case "trywaitret":
+			// give the call s.n ms to return; whether it does is the code's business (orders nothing)
+			d.mu.Lock()
+			ch := d.calls[s.c]
+			d.mu.Unlock()
+			if ch != nil {
+				select {
+				case <-ch:
+				case <-time.After(time.Duration(s.n) * time.Millisecond):
+				}
+			}
 		case "bsend":
 			d.conn.brokerSend(s.pkt)
 		case "idle":
@@ -772,6 +783,40 @@ func directClauses(rec *Rec) {
 							fail("direct cancelled FAIL the future of call=%s is reported cancelled although its request went out and nothing has ended the connection (no Close, no failed Send/Receive, no Close/Disconnect call)", ev[1])
 						}
 					}
+				}
+			}
+		}
+	}
+	// "when the client is closed ... close/disconnect return": Close and Disconnect are the client's join point.  Once
+	// such a call has returned (other than "not connected"), no goroutine of that client touches the connection, the
+	// session or the application's callback any more, until a further Connect on the same Client
+	{
+		kind := map[string]string{}
+		closedBy := ""
+		for _, l := range lines {
+			f := strings.Fields(l)
+			if len(f) < 5 || f[0] != "ev" {
+				continue
+			}
+			th, ev := f[3], f[4:]
+			switch ev[0] {
+			case "new":
+				closedBy = ""
+			case "call":
+				if len(ev) >= 3 {
+					kind[ev[1]] = ev[2]
+					if ev[2] == "connect" {
+						closedBy = ""
+					}
+				}
+			case "ret":
+				if len(ev) >= 3 && (kind[ev[1]] == "close" || kind[ev[1]] == "disc") && (ev[2] == "nil" || ev[2] == "err") {
+					closedBy = kind[ev[1]] + " call=" + ev[1]
+				}
+			case "tx", "rx", "rxerr", "save", "delete", "lookup", "all", "reset", "nextid", "connclose", "cb", "cberr":
+				if th == "i" && closedBy != "" {
+					fail("direct closed_means_quiet FAIL after the %s had returned a goroutine of that client still did (%s)", closedBy, strings.Join(ev, " "))
+					closedBy = "" // one report per close
 				}
 			}
 		}
